@@ -172,10 +172,10 @@ func runSock(c C17Case) (o ev.Outcome) {
 			return fail("Start did not create the socket directory %s (%v)", d.Path, err)
 		}
 		if err != nil {
-			if d.Created {
-				continue // disabled: nothing has to be created; whatever was created is judged below
+			if !d.Created {
+				h.Notes = append(h.Notes, fmt.Sprintf("pre-existing directory %s: %v", d.Path, err))
 			}
-			return fail("pre-existing directory %s disappeared: %v", d.Path, err)
+			continue // disabled: nothing has to be created; whatever was created is judged below
 		}
 		if d.Created {
 			// "a socket directory created by NRI is accessible only to the runtime's own user"
@@ -186,8 +186,10 @@ func runSock(c C17Case) (o ev.Outcome) {
 				return fail("directory %s created by Start is owned by uid %d, not by the runtime's user %d", d.Path, sys.Uid, os.Geteuid())
 			}
 		} else if st.Mode().String() != d.Before {
-			// pre-existing directories are left alone
-			return fail("pre-existing directory %s changed mode from %s to %v", d.Path, d.Before, st.Mode())
+			// The statement only speaks about directories NRI creates: a pre-existing directory
+			// whose mode changed is not judged, only counted.
+			o.Lenient = append(o.Lenient, "sock:pre-existing-dir-mode-changed")
+			h.Notes = append(h.Notes, fmt.Sprintf("pre-existing directory %s changed mode from %s to %v", d.Path, d.Before, st.Mode()))
 		}
 	}
 	return o
